@@ -16,9 +16,21 @@ def ninja_escape(s):
     return s.replace("$", "$$")
 
 
+def _default_signals():
+    # commands inherit ignored signals from n2, which inherits them from us (nohup, CI runners ...): start from the defaults
+    import signal
+    for sig in range(1, 32):
+        if sig in (signal.SIGKILL, signal.SIGSTOP):
+            continue
+        try:
+            signal.signal(sig, signal.SIG_DFL)
+        except (OSError, ValueError, RuntimeError):
+            pass
+
+
 def run_n2(n2, d, args, timeout=120):
     p = subprocess.run([n2] + args, cwd=d, stdout=subprocess.PIPE, stderr=subprocess.PIPE, stdin=subprocess.DEVNULL,
-                       timeout=timeout, env=ENV)
+                       timeout=timeout, env=ENV, preexec_fn=_default_signals)
     return p.returncode, p.stdout, p.stderr
 
 
